@@ -460,7 +460,6 @@ class CHECK(core.Check):
                "C15_server_partial (needs the connectives present to be reserved words / not `in` when per / for "
                "clauses are present; C15_server_d62, C15_server_d63: defects D62, D63)",
                "C15_rear assumes `in frame <name>` with the name written (the documented syntax)",
-               "the marker-need loop (`in frame` / `by`) is modelled and compared on all permutations, no theorem",
                "what each verb does with the parsed options after its loop is outside the model (harness bookkeeping)",
                "the trailing `if` needs of aux are kept as raw tokens (need parsing is not modelled)"]
     TECHNIQUE = ("Lean 4 theorems (a generic permutation theorem for option loops from a per-clause locality lemma; "
@@ -469,7 +468,7 @@ class CHECK(core.Check):
                   "are each local (what follows is never absorbed) and whose updates commute parse to the same configuration "
                   "in every order — instantiated per verb from 'the clause parses on its own': full for frame, do (repaired "
                   "list), aux (with trailing if), log, logger, rear (C15_frame, C15_buildFrame, C15_do, C15_aux, C15_log, "
-                  "C15_logger, C15_rear); partial with the finding's region as hypothesis plus a proved counterexample for "
+                  "C15_logger, C15_rear, C15_marker_need for the in frame / by clauses of a need, and the command-level corollaries C15_build*); partial with the finding's region as hypothesis plus a proved counterexample for "
                   "framer (D61), do as found (D9), server (D62, D63). The no-absorption lemmas cover parseRelation/"
                   "parseIndirect (all relation forms), parseFields, parseDirect, the name loop of do. The model is tied to "
                   "building.py by running the real build methods on every permutation.")
@@ -555,7 +554,10 @@ class CHECK(core.Check):
         if fid not in verb_of or case["verb"] != verb_of[fid] or (fid == "D9" and self.fixed()):
             return False
         cls = ";".join(tok_hex(c) for c in case["clauses"]) or "-"
-        return core.Driver(self.ENGINE).run(["region %s %s" % (fid, cls)])[0] == "1"
+        cache = self.__dict__.setdefault("_regions", {})
+        if (fid, cls) not in cache:
+            cache[(fid, cls)] = core.Driver(self.ENGINE).run(["region %s %s" % (fid, cls)])[0] == "1"
+        return cache[(fid, cls)]
 
     def shrink_candidates(self, case):
         cl = case["clauses"]
